@@ -53,7 +53,9 @@ spec importsVisited(visited map[*Module]struct{}, module *Module) bool :=
     ==> mapHas(visited, module.Imports[i].Modules[j])
 
 func iterateModuleImportsRec [C10, C16]
-  requires module != nil && visited != nil
+  requires visited != nil
+  // the visited set is created by IterateModuleImports and handed to nobody else: the callback cannot reach it
+  preserves map:map[*ast.Module]struct{}
   // the callback runs for a module only after it was entered into the visited set (at most once per module) ...
   callsite fun requires arg0 == module && mapHas(visited, module)
   // ... and only after every module it imports has been visited (dependencies first)
@@ -73,5 +75,5 @@ func iterateModuleImportsRec [C10, C16]
   loop 1 invariant forall j int :: 0 <= j && j <= rangeindex1 && j < len(imprt.Modules) ==> mapHas(visited, imprt.Modules[j])
 
 func IterateModuleImports [C10, C16]
-  callsite iterateModuleImportsRec requires arg0 == module && arg0 != nil && arg2 != nil
+  callsite iterateModuleImportsRec requires arg0 == module && arg2 != nil
 @*/
